@@ -4,6 +4,36 @@ import Props.Gen07
 import Props.Gen18
 import Props.Gen16v
 
+/-
+  The tie by translation for the part of ui/ui.go around the key handler: `switchTo`,
+  `loadSurroundings` with the two loaders it starts, `subcommand` / `Subcommand`, `openUserInput`,
+  `openFeed` with the goroutine each starts, and `SetWidthHeight` are translated from the source on
+  every run (`extract/go2lean24.go` → `Generated/GoSwitch.lean`, namespace `GenSwitch`).  A
+  translated function returns the state it leaves, the frames it drew (`s.output(s.view())`: the
+  state each was drawn from) and the goroutines it started; a goroutine is two functions, its
+  critical section (`…_done`, a function of the state at that moment, the position of the page
+  the goroutine holds a pointer to, and what the world answered) and the whole (`…_goN`).
+
+  Proved here, for every model state, terminal size and argument:
+
+    setWidthHeight_eq        SetWidthHeight = Ui.setWidthHeight (size, and whether a frame is drawn)
+    loadSurroundings_start   which loaders start, on every translated state whatever its flags
+                             = Ui.startsUp / Ui.startsDown; the flags set; nothing drawn
+    go1_done_eq, go2_done_eq the completion handlers on any state holding their page anywhere
+    go1_eq, go2_eq           the loaders as a whole against the model's world = Ui.upDone / downDone
+    loadSurroundings_settled loaders run to completion = Ui.loadSurroundings
+    switchTo_eq              = Ui.switchTo (item, list of 0 / 1 / more items, container)
+    subcommand_eq            = Ui.subcommand (`open`, `feed` known and unknown, other names)
+    env_loadSurroundings, env_switchTo, env_subcommand, update_eq_translated
+                             the action parameters of the translated `Update` (Props/Gen07.lean) are
+                             this translated code: `Update` over `env2` is `Ui.update`
+
+  `E w` is the world as the translated code asks it (`Parents`, `Children`, `Harvest`,
+  `FetchUserInput`, `NewSplicer`: the model's functions).  The one numeric hypothesis,
+  `context + 1 < 2^64`, is what `uint(context + 1)` needs (the configuration check bounds the
+  preload amount by 2^31).
+-/
+
 set_option linter.unusedSimpArgs false
 set_option linter.unusedVariables false
 
@@ -665,5 +695,196 @@ theorem subcommand_eq (w : World) (wd ht : Int) (s : Ui.State) (name arg : Str) 
     · subst h2; simp only [or_true, if_true]; exact subcommand_feed w wd ht s arg hc
     · have hn : ¬ (name = "open".toList ∨ name = "feed".toList) := fun h => h.elim h1 h2
       simp only [hn, if_false]; exact subcommand_unknown w wd ht s name arg hn
+
+
+/-! ### The action parameters of the translated `Update` (Gen07) are translated code -/
+
+/-- A state of the translated `Update` as a state of the functions translated here: the same
+    history, feeds, mode and buffer; the page fields `Update` carries as `rest` in their places; no
+    loader running; the terminal size, which `Update` does not carry, given. -/
+def toS (wd ht : Int) (g : GState) : SState :=
+  ⟨⟨g.h.elements.map (fun gp => ⟨gp.feed, gp.rest.1.map encT, false, gp.rest.2.1, gp.rest.2.2, false⟩), g.h.index⟩,
+   wd, ht, g.mode, g.buffer⟩
+
+/-- Back: the size and the flags are dropped. -/
+def ofS (g : SState) : GState :=
+  ⟨⟨g.h.elements.map (fun p => ⟨p.feed, (p.frontier.map decT, p.children, p.basepoint)⟩), g.h.index⟩, g.mode, g.buffer⟩
+
+theorem toS_enc (wd ht : Int) (s : Ui.State) : toS wd ht (enc s) = encS wd ht s := by
+  simp only [toS, enc, encS, encH, encHS, List.map_map]
+  rfl
+
+theorem ofS_encS (wd ht : Int) (s : Ui.State) : ofS (encS wd ht s) = enc s := by
+  simp only [ofS, enc, encS, encH, encHS, List.map_map]
+  congr 2
+  apply List.map_congr_left
+  intro p _
+  cases p with
+  | mk f fr ch bp =>
+    simp only [Function.comp, encPageS, encPageF, encPage, Option.map_map]
+    congr 2
+    cases fr <;> simp
+
+/-- What `Update` hands `switchTo`, as the translated `switchTo` sees it: a nil `pub.Tangible` in
+    the `any` is none of the three cases. -/
+def argS : GArg → SArg
+  | .tangible (some x) => .tangible x
+  | .tangible none => .other
+  | .tangibles xs => .tangibles xs
+
+theorem allSome_enc (xs : List (Option GT)) (ys : List T) (h : allSome xs = some ys) :
+    ys.map (fun y => some (encT y)) = xs := by
+  induction xs generalizing ys with
+  | nil => simp [allSome] at h; subst h; rfl
+  | cons a t ih =>
+    cases a with
+    | none => simp [allSome] at h
+    | some x =>
+      simp only [allSome, Option.map_eq_some_iff] at h
+      obtain ⟨zs, hz, rfl⟩ := h
+      simp [ih zs hz, encT_decT]
+
+/-- **`loadSurroundings` of `Gen07.env` is the translated `loadSurroundings`** with its loaders run
+    to completion, at every encoded state. -/
+theorem env_loadSurroundings (w : World) (wd ht : Int) (s : Ui.State) (hc : s.context < 2 ^ 64) :
+    (env w s.context s.feeds).loadSurroundings (enc s) =
+      (settle (E w) (cfgOf s) none (GenSwitch.loadSurroundings (cfgOf s) (toS wd ht (enc s)))).map ofS := by
+  rw [toS_enc, loadSurroundings_settled w wd ht s none hc]
+  simp only [env, lift, dec_enc, setMB]
+  cases Ui.loadSurroundings w s with
+  | error e => rfl
+  | ok s' => simp only [Except.map, ofS_encS]
+
+/-- **`switchTo` of `Gen07.env` is the translated `switchTo`**, at every encoded state, for an item,
+    a nil interface, and every list without a nil in it (every list `Post.Creators` /
+    `Recipients` return). -/
+theorem env_switchTo (w : World) (wd ht : Int) (s : Ui.State) (a : GArg) (hc : s.context + 1 < 2 ^ 64)
+    (ha : ∀ xs, a = .tangibles xs → allSome xs ≠ none) :
+    (env w s.context s.feeds).switchTo (enc s) a =
+      (settle (E w) (cfgOf s) none (GenSwitch.switchTo (E w) (cfgOf s) (toS wd ht (enc s)) (argS a))).map ofS := by
+  rw [toS_enc]
+  have fin : ∀ t : Ui.Target, argS a = targetArg t → argOf a = .ok t →
+      (env w s.context s.feeds).switchTo (enc s) a =
+        (settle (E w) (cfgOf s) none (GenSwitch.switchTo (E w) (cfgOf s) (encS wd ht s) (argS a))).map ofS := by
+    intro t h1 h2
+    rw [h1, switchTo_eq w wd ht s none t hc]
+    simp only [env, h2, lift, dec_enc, setMB]
+    cases Ui.switchTo w s t with
+    | error e => rfl
+    | ok s' => simp only [Except.map, ofS_encS]
+  cases a with
+  | tangible x =>
+    cases x with
+    | none =>
+      simp only [argS, switchTo_other, settle, Except.map, env, argOf]
+    | some x => exact fin (.item (decT x)) (by simp [argS, targetArg, encT_decT]) rfl
+  | tangibles xs =>
+    cases hs : allSome xs with
+    | none => exact absurd hs (ha xs rfl)
+    | some ys =>
+      exact fin (.list ys) (by simp [argS, targetArg, allSome_enc xs ys hs]) (by simp [argOf, hs])
+
+/-- **`subcommand` of `Gen07.env` is the translated `subcommand`** (with `openUserInput`, `openFeed`,
+    their goroutines, `switchTo` and the loaders run to completion), at every encoded state. -/
+theorem env_subcommand (w : World) (wd ht : Int) (s : Ui.State) (name arg : Str) (hc : s.context + 1 < 2 ^ 64) :
+    (env w s.context s.feeds).subcommand (enc s) name arg =
+      (settledSub (E w) (cfgOf s) (toS wd ht (enc s)) name arg).map (fun r => (ofS r.1, r.2)) := by
+  rw [toS_enc, subcommand_eq w wd ht s name arg hc]
+  by_cases hn : name = "open".toList ∨ name = "feed".toList
+  · simp only [env, hn, if_true, dec_enc]
+    cases Ui.subcommand w s name arg with
+    | error e => rfl
+    | ok s' => simp only [Except.map, ofS_encS]
+  · simp only [env, hn, if_false, Except.map, ofS_encS]
+
+/-- `config.Parsed` as the parameters of `Gen07.env` give it. -/
+def cfgC (ctx : Nat) (feeds : List (Str × List Str)) : GenSwitch.Cfg :=
+  ⟨(ctx : Int), fun k => (feeds.find? (fun f => f.1 = k)).map (·.2)⟩
+
+theorem cfgOf_eq (s : Ui.State) : cfgOf s = cfgC s.context s.feeds := rfl
+
+/-- A list handed to `switchTo` holds no nil (every list `Post.Creators` / `Recipients` return in the
+    model's worlds). -/
+def NoNil (a : GArg) : Prop := ∀ xs, a = .tangibles xs → allSome xs ≠ none
+
+attribute [local instance] Classical.propDecidable in
+/-- **`Gen07.env` with its three action parameters replaced by translated code**: `loadSurroundings`,
+    `switchTo` and `subcommand` are the functions of `Generated/GoSwitch.lean` (goroutines run to
+    completion against the model's world `E w`), on every state that is the encoding of a model
+    state — by `Gen07.enc_dec` every state whose mode is one of the six and whose history index
+    is not negative — and, for `switchTo`, every argument without a nil inside a list. -/
+noncomputable def env2 (w : World) (wd ht : Int) (ctx : Nat) (feeds : List (Str × List Str)) : GEnv :=
+  { env w ctx feeds with
+    loadSurroundings := fun g =>
+      if enc (dec ctx feeds g) = g then
+        (settle (E w) (cfgC ctx feeds) none (GenSwitch.loadSurroundings (cfgC ctx feeds) (toS wd ht g))).map ofS
+      else (env w ctx feeds).loadSurroundings g
+    switchTo := fun g a =>
+      if enc (dec ctx feeds g) = g ∧ NoNil a then
+        (settle (E w) (cfgC ctx feeds) none
+          (GenSwitch.switchTo (E w) (cfgC ctx feeds) (toS wd ht g) (argS a))).map ofS
+      else (env w ctx feeds).switchTo g a
+    subcommand := fun g name arg =>
+      if enc (dec ctx feeds g) = g then
+        (settledSub (E w) (cfgC ctx feeds) (toS wd ht g) name arg).map (fun r => (ofS r.1, r.2))
+      else (env w ctx feeds).subcommand g name arg }
+
+attribute [local instance] Classical.propDecidable in
+theorem env2_eq (w : World) (wd ht : Int) (ctx : Nat) (feeds : List (Str × List Str)) (hc : ctx + 1 < 2 ^ 64) :
+    env2 w wd ht ctx feeds = env w ctx feeds := by
+  have h1 : (fun g => if enc (dec ctx feeds g) = g then
+        (settle (E w) (cfgC ctx feeds) none (GenSwitch.loadSurroundings (cfgC ctx feeds) (toS wd ht g))).map ofS
+      else (env w ctx feeds).loadSurroundings g) = (env w ctx feeds).loadSurroundings := by
+    funext g
+    split
+    · rename_i hg
+      have hcx : (dec ctx feeds g).context = ctx := rfl
+      have hfd : (dec ctx feeds g).feeds = feeds := rfl
+      generalize dec ctx feeds g = s at hg hcx hfd
+      subst hg hcx hfd
+      rw [env_loadSurroundings w wd ht s (by omega), cfgOf_eq]
+    · rfl
+  have h2 : (fun g a => if enc (dec ctx feeds g) = g ∧ NoNil a then
+        (settle (E w) (cfgC ctx feeds) none
+          (GenSwitch.switchTo (E w) (cfgC ctx feeds) (toS wd ht g) (argS a))).map ofS
+      else (env w ctx feeds).switchTo g a) = (env w ctx feeds).switchTo := by
+    funext g a
+    split
+    · rename_i hg
+      obtain ⟨hg, ha⟩ := hg
+      have hcx : (dec ctx feeds g).context = ctx := rfl
+      have hfd : (dec ctx feeds g).feeds = feeds := rfl
+      generalize dec ctx feeds g = s at hg hcx hfd
+      subst hg hcx hfd
+      rw [env_switchTo w wd ht s a hc ha, cfgOf_eq]
+    · rfl
+  have h3 : (fun g name arg => if enc (dec ctx feeds g) = g then
+        (settledSub (E w) (cfgC ctx feeds) (toS wd ht g) name arg).map (fun r => (ofS r.1, r.2))
+      else (env w ctx feeds).subcommand g name arg) = (env w ctx feeds).subcommand := by
+    funext g name arg
+    split
+    · rename_i hg
+      have hcx : (dec ctx feeds g).context = ctx := rfl
+      have hfd : (dec ctx feeds g).feeds = feeds := rfl
+      generalize dec ctx feeds g = s at hg hcx hfd
+      subst hg hcx hfd
+      rw [env_subcommand w wd ht s name arg hc, cfgOf_eq]
+    · rfl
+  unfold env2
+  rw [h1, h2, h3]
+
+/-- **The translated `Update` with translated actions is the model's `update`.**  `Gen07.update_eq`
+    with `loadSurroundings`, `switchTo` and `subcommand` instantiated by the code translated from
+    ui/ui.go (`env2`); the remaining action parameters (`openInternally`, `openExternally` — translated
+    in `Generated/GoHook.lean` —, the methods of package pub — `GoSelect`, `GoLink` —) stay the model's. -/
+theorem update_eq_translated (w : World) (wd ht : Int) (s : Ui.State) (k : Nat)
+    (hsel : s.mode = .selection → s.buffer ≠ [] ∧ ∀ ch ∈ s.buffer, ch.isDigit = true)
+    (hc : s.context + 1 < 2 ^ 64) :
+    GenUpdate.Update (env2 w wd ht s.context s.feeds) (enc s) k = (Ui.update w s k).map enc := by
+  rw [env2_eq w wd ht s.context s.feeds hc]
+  exact update_eq w s k hsel
+
+/-- The guard of `env2` holds at every encoded state. -/
+theorem env2_guard (s : Ui.State) : enc (dec s.context s.feeds (enc s)) = enc s := by rw [dec_enc]
 
 end Gen07s
